@@ -22,6 +22,16 @@ def run(tier, seed):
         else:
             continue  # other exception classes are judged by C06 / C10
         out["violations"].append(_pipe.violation(rec, clause, "native-wide", "C05"))
+    # the sub-graph lattice and its emission order (the mechanism of defect #2), bound by exhaustive conformance
+    from .. import structure_conf
+
+    sv, sr, sn = structure_conf.check_subgraphs(tier)
+    for v in sv:
+        v["what"] = "generate_subgraphs deviates from spec/Structure.tla: " + v["what"]
+    out["violations"] += sv
+    out["coverage"]["states"] += sr.distinct
+    out["coverage"]["transitions"] += sr.generated
+    out["coverage"]["subgraph_lattices_compared"] = sn
     faults = {}
     for x in out["recs"]:
         faults[x["v"]["c05"]] = faults.get(x["v"]["c05"], 0) + 1
